@@ -939,6 +939,24 @@ func (env *exprEnv) call(x *Expr) typedTerm {
 			}
 			env.triggers = append(env.triggers, grp)
 			return typedTerm{t: "true", typ: tBool}
+		case "rune_count", "rune_val", "rune_pos":
+			// the runes of a string as `for range` sees them (count, value and byte position of the k-th rune)
+			g.needRunes()
+			var ts []string
+			for _, a := range argEs {
+				ts = append(ts, env.tr(a).t)
+			}
+			want := 2
+			if callee.name == "rune_count" {
+				want = 1
+			}
+			if len(ts) != want {
+				return env.fail("%s expects %d arguments", callee.name, want)
+			}
+			return typedTerm{t: "(" + callee.name + " " + strings.Join(ts, " ") + ")", typ: tInt}
+		case "runestr":
+			// string(r) for a rune r
+			return typedTerm{t: g.libApp("string_of_rune", []string{"Int"}, "Str", []Term{env.tr(argEs[0]).t}), typ: tStr}
 		case "isdigits":
 			g.libDep("isdigits")
 			return typedTerm{t: "(L_isdigits " + env.tr(argEs[0]).t + ")", typ: tBool}
